@@ -364,6 +364,7 @@ func (e *Engine) execMapUpdate(s *State, fr *Frame, x *ssa.MapUpdate) {
 	s.addObligation("safety", name, "", x.Pos(), nn, "assignment to entry in nil map")
 	s.assume(nn)
 	e.applyMapUpdateAnchors(s, fr, x, k, v)
+	e.mapLenFacts(s, mt, m, k) // models_coord.go: len >= 0, key present ==> len >= 1
 	domH, valH, lenH, dk, vk, lk := e.mapParts(s, mt)
 	dom := Select(domH, m)
 	had := Select(dom, k)
@@ -389,6 +390,7 @@ func (e *Engine) execLookup(s *State, fr *Frame, x *ssa.Lookup) {
 		m := s.term(fr, x.X)
 		k := s.term(fr, x.Index)
 		domH, valH, _, _, _, _ := e.mapParts(s, mt)
+		e.mapLenFacts(s, mt, m, k) // models_coord.go: len >= 0, key present ==> len >= 1
 		has := And(Not(Eq(m, IntLit(0))), Select(Select(domH, m), k))
 		raw := Select(Select(valH, m), k)
 		zero, err := s.toTerm(s.zeroValue(mt.Elem()))
